@@ -99,3 +99,17 @@ func TestRejects(t *testing.T) {
 	}
 	fmt.Println(seen)
 }
+
+// TestGoAcceptsX builds every function of the thorough expression frame with the reference toolchain.
+func TestGoAcceptsX(t *testing.T) {
+	if os.Getenv("C14_GOX") == "" {
+		t.Skip()
+	}
+	setupEnv()
+	p := &Prog{}
+	exprFns(true, func(f Fn) { f.Args = []string{"1,2"}; p.Fns = append(p.Fns, f) })
+	dir, cleanup := vkScratch()
+	defer cleanup()
+	_, err := goSide(dir, p)
+	fmt.Println("functions:", len(p.Fns), "error:", err)
+}
